@@ -1,6 +1,6 @@
 #!/bin/sh
 # runs every registered thorough check on the current /repo tree; prints alarms and timings
-for p in C01 C02 C03 C04 C05 C06 C07 C08 C09 C10 C11 C12 C13 C14 C15 C16 C17 C18 C19 C20; do
+for p in ${2:-C01 C02 C03 C04 C05 C06 C07 C08 C09 C10 C11 C12 C13 C14 C15 C16 C17 C18 C19 C20}; do
   t0=$(date +%s)
   VERIF_SEED=${1:-1} ./zv check $p --tier thorough > /tmp/thorough.$p 2>&1; rc=$?
   t1=$(date +%s)
